@@ -138,6 +138,32 @@ class MQUnit(Unit):
     def __init__(self, keep=None):
         self.keep = keep
 
+    def replay(self, failure):
+        """native: the real MQ.send with a scripted sender that times out once (balanced or not): the retry must pass the id received, and after a completed send the state is cleared"""
+        import logging
+        logging.disable(logging.CRITICAL)
+        from openfilter.filter_runtime.mq import MQ
+        from openfilter.filter_runtime.zeromq import ZMQStateSend, ZMQStateRecv
+        obs = []
+        for balanced in (False, 1):
+            seen = []
+
+            class Sender:
+                def send(self, cb, state=None, timeout=None, push=False):
+                    seen.append(state)
+                    return None if len(seen) == 1 else ZMQStateRecv(8)
+            mq = MQ.__new__(MQ)
+            mq.__dict__.update(receiver=None, sender=Sender(), mq_msgid_sync=True, send_state=ZMQStateSend(7, balanced), recv_state=None, metrics_sender=None, metrics_cb=None,
+                               mq_log=False, mq_id='x', outs_metrics=None, outs_filter=None, outs_jpg=None, metrics={})
+            r1 = mq.send({}, 0)
+            r2 = mq.send({}, 0)
+            ids = [getattr(s, 'msg_id', None) for s in seen]
+            if r1 is not False or r2 is not True or ids != [7, 7]:
+                obs.append(f'received id 7 (balanced={balanced}): first send timed out, the two attempts passed ids {ids} to the sender (results {r1}, {r2})')
+            if mq.send_state is not None:
+                obs.append('send_state is not cleared after the completed send')
+        return {'confirmed': bool(obs), 'inputs': 'MQ.send retried after a timeout of the sender', 'observed': obs or 'the retry passes the received id', 'required': 'every (re)try of a send passes the id received with the frames'}
+
     def shapes(self, tier):
         out = []
         for has_sender in (True, False):
